@@ -1689,6 +1689,56 @@ def rf150(run):
 
 
 # ---------------------------------------------------------------------------------------------
+# RF157: the "undefined item" diagnostics of the link step can fire
+# ---------------------------------------------------------------------------------------------
+
+def rf157(run):
+    rule = 'RF157'
+    run.rule(rule, 'MIR_link: add_item enters an export or forward declaration into the module table when nothing of that name is there yet, '
+                   'so the lookup made for such an item at link time finds at least the declaration itself.  The condition that guards '
+                   '"export/forward of undefined item" therefore has to look at what was found (its item_type, or its identity), not only at NULL: '
+                   'otherwise the declaration becomes its own ref_def and every loop that follows ref_def to the definition never ends')
+    tu = run.tu('mir')
+    g = tu.func('add_item')
+    run.functions_analysed.add(('mir', g.name))
+    ins = [x for x in g.walk() if x['k'] == 'CallExpr' and x.get('callee') == 'item_tab_insert']
+    run.control(rule, 'add_item enters items into the table', len(ins) >= 1)
+    n = 0
+    for h in tu.func_list:
+        if h.body is None or not h.file.startswith('/repo'):
+            continue
+        for x in h.walk():
+            if x['k'] != 'IfStmt' or len(x['c']) < 2:
+                continue
+            then = x['c'][1]
+            if any(y['k'] == 'IfStmt' for y in F.walk(then)):
+                continue
+            msg = [y.get('s', '') for y in F.walk(then) if y['k'] == 'StringLiteral']
+            kind = None
+            for m_ in msg:
+                if 'export of undefined item' in m_:
+                    kind = 'export'
+                if 'forward of undefined item' in m_:
+                    kind = 'forward'
+            if kind is None:
+                continue
+            n += 1
+            run.functions_analysed.add(('mir', h.name))
+            cond = x['c'][0]
+            looks = any(y['k'] == 'MemberExpr' and y['n'] == 'item_type' and 'tab_item' in F.src(y) for y in F.walk(cond)) or \
+                any(y['k'] == 'BinaryOperator' and y['op'] in ('==', '!=') and 'tab_item' in F.src(y) and
+                    F.src(F.strip(y['c'][1])) == 'item' for y in F.walk(cond))
+            run.ob(rule, (h.name, kind), looks, {'site': '%s:%d' % (h.relfile(), x['l']), 'condition': F.src(cond)[:120]})
+            if not looks:
+                run.violation(rule, h, 'dead diagnostic: %s of undefined item' % kind,
+                              'the condition `%s` tests the lookup result for NULL only, but the lookup finds the %s declaration itself when the '
+                              'module never defines the name: the error is never reported, the declaration becomes its own ref_def, and a '
+                              'reference through it makes simplify_op / process_inlines loop forever' % (F.src(cond)[:90], kind), line=x['l'])
+    run.control(rule, 'both diagnostics found', n == 2)
+    return n
+
+
+# ---------------------------------------------------------------------------------------------
 # RF16m: every address load_bss_data_section hands out lies in the section it allocated
 # ---------------------------------------------------------------------------------------------
 
